@@ -102,7 +102,8 @@ def devOf (j : Json) : Dev :=
   { path := (jarr j "path").map fun p => bytesOf (strOf p),
     kind := match jstr j "kind" with | "not-supported" => .notSupported | "add" => .add | "replace" => .replace | _ => .delete,
     prop := match jstr j "prop" with | "default" => .dflt | "mandatory" => .mandatory | "min-elements" => .minEl | "max-elements" => .maxEl | _ => .config,
-    val := bytesOf (jstr j "val") }
+    val := bytesOf (jstr j "val"),
+    alone := match j.getObjVal? "alone" with | .ok (.bool b) => b | _ => true }
 
 def hasSub (s sub : String) : Bool := (s.splitOn sub).length > 1
 
@@ -115,6 +116,7 @@ def classOf (e : String) : String :=
   else if hasSub e "Only existing proprties can be replaced" then "err:dev-replace-missing"
   else if hasSub e "Property being deleted by deviation must exist" then "err:dev-delete-missing"
   else if hasSub e "Property not allowed" then "err:dev-not-allowed"
+  else if hasSub e "No other deviate statements allowed" then "err:dev-notsup-others"
   else if hasSub e "Invalid path" then "err:dev-bad-path"
   else if hasSub e "redefinition of name" then "err:name-clash"
   else if hasSub e "Choice default" then "err:choice-default"
